@@ -1,5 +1,6 @@
 import IwModel.Lemmas.KvApi
 import IwModel.Lemmas.KvBridge
+import IwModel.Lemmas.KvApiSpec
 /-! # C01 — the KV store behaves as an ordered map
 
 Property theorems only; helper lemmas live in `IwModel/Lemmas/Kv.lean`.
@@ -12,7 +13,12 @@ Property theorems only; helper lemmas live in `IwModel/Lemmas/Kv.lean`.
   database leave the others alone, effective keys unpack to what the caller passed;
 * the bridge to C19 (§5): the comparator the store uses (`KvApi.gtE flags`) IS a strict total order on
   the effective keys a database can hold, in every key mode, so the refinement theorems hold for
-  it with no comparator hypothesis left (`store_refines_map` and its per-mode corollaries). -/
+  it with no comparator hypothesis left (`store_refines_map` and its per-mode corollaries);
+* §6, the property as written: the whole `KvApi.Store` — several databases of any modes, put with
+  no-overwrite / increment / put handler, get, get-into-buffer, delete, metadata, database creation and
+  destruction — against the reference map `KvApiSpec.SpecStore`, call by call and for every history
+  (`api_history_refines`, no hypothesis), with "errors change nothing" and "databases are independent"
+  as corollaries read off the reference. -/
 namespace IwModel.C01
 open IwModel Kv
 
@@ -383,5 +389,355 @@ example : flatten (runNode (KvApi.gtE (KvApi.realFlags false)) ⟨[], []⟩ exOp
 example : ∃ ek, KvApi.toEffective (KvApi.vnumFlags true) [44, 1, 0, 0, 0, 0, 0, 0] 9 = .ok ek ∧
     KvApi.Valid (KvApi.vnumFlags true) ek :=
   ⟨_, rfl, api_keys_valid _ [44, 1, 0, 0, 0, 0, 0, 0] 9 _ (by simp) rfl⟩
+
+/-! ### 6. the property as written: the whole store against the reference map, call by call
+
+`KvApiSpec.SpecStore` (`Model/KvApiSpec.lean`) is the ordered reference map of the property: per
+database one sorted association list, no nodes, no levels, no cursors; its operations return the
+canonical result lines. `absStore` reads a `KvApi.Store` (the node-level model that the differential
+run compares with the C code) as such a reference store; `StoreInv` says every database has a valid
+chain under the comparator of its own flags and holds valid keys only. Each API call returns the line
+the reference returns, lands on the store the reference lands on, and keeps `StoreInv` — whatever
+level the put draws, whatever cursors are open. -/
+section Api
+open KvApi KvApiSpec
+
+/-- `iwkv_puth` in every flavour — plain, `IWKV_NO_OVERWRITE`, `IWKV_VAL_INCREMENT`, accepting or
+    refusing put handler, any key mode, any database of the store, any drawn level -/
+theorem api_put_refines (s : Store) (inv : StoreInv s) (id : Nat) (key : Bytes) (comp : Nat) (val : Bytes)
+    (fl lvl ph : Nat) :
+    (KvApi.put s id key comp val fl lvl ph).2 = (sput (absStore s) id key comp val fl ph).2 ∧
+    absStore (KvApi.put s id key comp val fl lvl ph).1 = (sput (absStore s) id key comp val fl ph).1 ∧
+    StoreInv (KvApi.put s id key comp val fl lvl ph).1 := by
+  have h := putR_refines s inv id key comp val fl lvl ph
+  simp only [KvApi.put, sput]
+  exact ⟨by rw [h.1], h.2.1, h.2.2⟩
+
+/-- `iwkv_get` (a read: the store is not touched) -/
+theorem api_get_refines (s : Store) (inv : StoreInv s) (id : Nat) (key : Bytes) (comp : Nat) :
+    KvApi.get s id key comp = sget (absStore s) id key comp := by
+  simp only [KvApi.get, sget, sgetDb_abs]
+  cases hg : getDb s id with
+  | none => rfl
+  | some d =>
+    have hf : (absDb d).flags = d.flags := rfl
+    simp only [Option.map_some, hf]
+    cases he : toEffective d.flags key comp with
+    | error e => rfl
+    | ok ek =>
+      have hl : (absDb d).lookup ek = specGet (gtE d.flags) (flatten d.db.nodes) ek := rfl
+      simp only [hl, db_get_refines (dbInv_of_getDb inv hg) key comp ek he]
+      cases specGet (gtE d.flags) (flatten d.db.nodes) ek <;> rfl
+
+/-- `iwkv_get_copy`: length of the value and the part that fits the caller's buffer -/
+theorem api_getcopy_refines (s : Store) (inv : StoreInv s) (id : Nat) (key : Bytes) (comp : Nat) (bufsz : Nat) :
+    KvApi.getCopy s id key comp bufsz = sgetCopy (absStore s) id key comp bufsz := by
+  simp only [KvApi.getCopy, sgetCopy, sgetDb_abs]
+  cases hg : getDb s id with
+  | none => rfl
+  | some d =>
+    have hf : (absDb d).flags = d.flags := rfl
+    simp only [Option.map_some, hf]
+    cases he : toEffective d.flags key comp with
+    | error e => rfl
+    | ok ek =>
+      have hl : (absDb d).lookup ek = specGet (gtE d.flags) (flatten d.db.nodes) ek := rfl
+      simp only [hl, db_get_refines (dbInv_of_getDb inv hg) key comp ek he]
+      cases specGet (gtE d.flags) (flatten d.db.nodes) ek <;> rfl
+
+/-- `iwkv_del`, also when a node loses its last record and is unlinked -/
+theorem api_del_refines (s : Store) (inv : StoreInv s) (id : Nat) (key : Bytes) (comp : Nat) :
+    (KvApi.del s id key comp).2 = (sdel (absStore s) id key comp).2 ∧
+    absStore (KvApi.del s id key comp).1 = (sdel (absStore s) id key comp).1 ∧
+    StoreInv (KvApi.del s id key comp).1 := by
+  simp only [KvApi.del, sdel, sgetDb_abs]
+  cases hg : getDb s id with
+  | none => exact ⟨rfl, rfl, inv⟩
+  | some d =>
+    have dinv := dbInv_of_getDb inv hg
+    have hro : (absStore s).readonly = s.readonly := rfl
+    have hf : (absDb d).flags = d.flags := rfl
+    simp only [Option.map_some, hro, hf]
+    cases hr : s.readonly with
+    | true => exact ⟨rfl, rfl, inv⟩
+    | false =>
+      simp only [Bool.false_eq_true, if_false]
+      cases he : toEffective d.flags key comp with
+      | error e => exact ⟨rfl, rfl, inv⟩
+      | ok ek =>
+        have hl : (absDb d).lookup ek = specGet (gtE d.flags) (flatten d.db.nodes) ek := rfl
+        have hd := db_del_refines dinv key comp ek he
+        have hab : absDb { d with db := (Kv.del (gtE d.flags) d.db ek).1 } = (absDb d).erase ek := by
+          simp only [absDb, SpecDb.erase]; rw [hd.2.1]
+        simp only [hl]
+        rw [hd.1]
+        cases specGet (gtE d.flags) (flatten d.db.nodes) ek with
+        | none => exact ⟨rfl, rfl, inv⟩
+        | some v =>
+          simp only [Option.isSome_some, if_true]
+          exact ⟨trivial, by rw [abs_setDb, hab], storeInv_setDb inv id hd.2.2⟩
+
+/-- per-database metadata: `iwkv_db_set_meta` and `iwkv_db_get_meta` -/
+theorem api_meta_refines (s : Store) (inv : StoreInv s) (id : Nat) (m : Bytes) (bufsz known : Nat) :
+    ((KvApi.metaSet s id m).2 = (smetaSet (absStore s) id m).2 ∧
+      absStore (KvApi.metaSet s id m).1 = (smetaSet (absStore s) id m).1 ∧
+      StoreInv (KvApi.metaSet s id m).1) ∧
+    KvApi.metaGet s id bufsz known = smetaGet (absStore s) id bufsz known := by
+  refine ⟨?_, ?_⟩
+  · simp only [KvApi.metaSet, smetaSet, sgetDb_abs]
+    cases hg : getDb s id with
+    | none => exact ⟨rfl, rfl, inv⟩
+    | some d =>
+      have dinv := dbInv_of_getDb inv hg
+      have hro : (absStore s).readonly = s.readonly := rfl
+      simp only [Option.map_some, hro]
+      cases hr : s.readonly with
+      | true => exact ⟨rfl, rfl, inv⟩
+      | false =>
+        cases hm : m.isEmpty with
+        | true => exact ⟨rfl, rfl, inv⟩
+        | false =>
+          simp only [Bool.false_eq_true, if_false]
+          exact ⟨trivial, by rw [abs_setDb]; rfl, storeInv_setDb inv id dinv⟩
+  · simp only [KvApi.metaGet, smetaGet, sgetDb_abs]
+    cases hg : getDb s id with
+    | none => rfl
+    | some d => rfl
+
+/-- `iwkv_db`: fetch an existing database (flags must match) or create an empty one -/
+theorem api_opendb_refines (s : Store) (inv : StoreInv s) (id flags : Nat) :
+    (KvApi.openDb s id flags).2 = (sopenDb (absStore s) id flags).2 ∧
+    absStore (KvApi.openDb s id flags).1 = (sopenDb (absStore s) id flags).1 ∧
+    StoreInv (KvApi.openDb s id flags).1 := by
+  simp only [KvApi.openDb, sopenDb, sgetDb_abs]
+  cases hg : getDb s id with
+  | some d =>
+    have hf : (absDb d).flags = d.flags := rfl
+    simp only [Option.map_some, hf]
+    split <;> exact ⟨rfl, rfl, inv⟩
+  | none =>
+    have hro : (absStore s).readonly = s.readonly := rfl
+    simp only [Option.map_none, hro]
+    cases hr : s.readonly with
+    | true => exact ⟨rfl, rfl, inv⟩
+    | false =>
+      simp only [Bool.false_eq_true, if_false]
+      refine ⟨trivial, by simp [absStore, absDb, flatten], ?_⟩
+      intro x hx
+      simp only [List.mem_append, List.mem_singleton] at hx
+      rcases hx with hx | rfl
+      · exact inv x hx
+      · exact ⟨nodeInv_nil, keysOn_nil⟩
+
+/-- `iwkv_db_destroy` -/
+theorem api_destroydb_refines (s : Store) (inv : StoreInv s) (id : Nat) :
+    (KvApi.destroyDb s id).2 = (sdestroyDb (absStore s) id).2 ∧
+    absStore (KvApi.destroyDb s id).1 = (sdestroyDb (absStore s) id).1 ∧
+    StoreInv (KvApi.destroyDb s id).1 := by
+  simp only [KvApi.destroyDb, sdestroyDb, sgetDb_abs]
+  cases hg : getDb s id with
+  | none => exact ⟨rfl, rfl, inv⟩
+  | some d =>
+    simp only [Option.map_some]
+    refine ⟨trivial, by simp [absStore, List.filter_map, Function.comp_def], ?_⟩
+    intro x hx
+    exact inv x (List.mem_filter.1 hx).1
+
+/-- one call of the API, whichever: same line, same resulting contents, invariant kept -/
+theorem api_step_refines (s : Store) (inv : StoreInv s) (op : ApiOp) :
+    (stepApi s op).2 = (stepSpecApi (absStore s) op).2 ∧
+    absStore (stepApi s op).1 = (stepSpecApi (absStore s) op).1 ∧ StoreInv (stepApi s op).1 := by
+  cases op with
+  | put id key comp val fl lvl ph => exact api_put_refines s inv id key comp val fl lvl ph
+  | get id key comp => exact ⟨api_get_refines s inv id key comp, rfl, inv⟩
+  | getCopy id key comp bufsz => exact ⟨api_getcopy_refines s inv id key comp bufsz, rfl, inv⟩
+  | del id key comp => exact api_del_refines s inv id key comp
+  | metaSet id m => exact (api_meta_refines s inv id m 0 0).1
+  | metaGet id bufsz known => exact ⟨(api_meta_refines s inv id [] bufsz known).2, rfl, inv⟩
+  | openDb id flags => exact api_opendb_refines s inv id flags
+  | destroyDb id => exact api_destroydb_refines s inv id
+  | reopen ro => exact ⟨rfl, rfl, inv⟩
+
+/-- histories from any store satisfying the invariant, whatever cursors are open -/
+theorem api_history_refines_from (ops : List ApiOp) (s : Store) (inv : StoreInv s) :
+    (runApi s ops).2 = (runSpecApi (absStore s) ops).2 ∧
+    absStore (runApi s ops).1 = (runSpecApi (absStore s) ops).1 ∧ StoreInv (runApi s ops).1 := by
+  induction ops generalizing s with
+  | nil => exact ⟨rfl, rfl, inv⟩
+  | cons op ops ih =>
+    have hs := api_step_refines s inv op
+    have := ih (stepApi s op).1 hs.2.2
+    simp only [runApi, runSpecApi]
+    rw [← hs.2.1, ← hs.1]
+    exact ⟨by rw [this.1], this.2.1, this.2.2⟩
+
+/-- **C01 as written.** Every history of put (plain, no-overwrite, increment, with an accepting or a
+    refusing put handler), get, get-into-buffer, delete, metadata set/get, database creation and
+    destruction and re-opening read-only or writable — over any number of databases of any key modes
+    (the flags word of each `openDb` is arbitrary), with arbitrary keys, values and level draws —
+    started from the empty store: the node-level model prints, call by call, exactly the lines of
+    the ordered reference map, and ends holding exactly the reference's contents (every database:
+    same id, flags, metadata and the same sorted records). No hypothesis. -/
+theorem api_history_refines (ops : List ApiOp) :
+    (runApi Store.empty ops).2 = (runSpecApi SpecStore.empty ops).2 ∧
+    absStore (runApi Store.empty ops).1 = (runSpecApi SpecStore.empty ops).1 :=
+  have h := api_history_refines_from ops Store.empty storeInv_empty
+  ⟨h.1, h.2.1⟩
+
+/-- the reference itself stays well formed along every history: each database's list is strictly
+    descending under the comparator of its flags and holds valid effective keys only (so lookup in
+    it is membership, `spec_get_iff_mem`/`store_map_laws`) -/
+theorem api_history_spec_sorted (ops : List ApiOp) : SpecInv (runSpecApi SpecStore.empty ops).1 := by
+  have h := api_history_refines_from ops Store.empty storeInv_empty
+  have e : absStore Store.empty = SpecStore.empty := rfl
+  rw [e] at h
+  rw [← h.2.1]
+  exact specInv_abs h.2.2
+
+/-! #### corollaries, read off the reference -/
+
+/-- on the reference: a call whose line does not begin with `<op> ok` returns the store it got -/
+theorem spec_error_preserves (t : SpecStore) (op : ApiOp) (h : ¬ lineOk op (stepSpecApi t op).2) :
+    (stepSpecApi t op).1 = t := by
+  cases op with
+  | put id key comp val fl lvl ph =>
+    have e : "put ok".length = 6 := by decide
+    simp only [stepSpecApi, sput, lineOk, ApiOp.okWord, e] at h ⊢
+    rcases sputR_cases t id key comp val fl ph with h1 | ⟨d, _, h2⟩
+    · exact h1.1
+    · exact absurd ((putLine_ok_iff ph _).2 h2) h
+  | get id key comp => rfl
+  | getCopy id key comp bufsz => rfl
+  | del id key comp =>
+    rcases sdel_cases t id key comp with h1 | ⟨d, _, h2⟩
+    · exact h1
+    · exact absurd (by simp only [stepSpecApi, h2, lineOk, ApiOp.okWord]; decide) h
+  | metaSet id m =>
+    rcases smetaSet_cases t id m with h1 | ⟨d, _, h2⟩
+    · exact h1
+    · exact absurd (by simp only [stepSpecApi, h2, lineOk, ApiOp.okWord]; decide) h
+  | metaGet id bufsz known => rfl
+  | openDb id flags =>
+    rcases sopenDb_cases t id flags with h1 | ⟨_, h2⟩
+    · exact h1
+    · exact absurd (by simp only [stepSpecApi, h2, lineOk, ApiOp.okWord]; decide) h
+  | destroyDb id =>
+    rcases sdestroyDb_cases t id with h1 | ⟨_, h2⟩
+    · exact h1
+    · exact absurd (by simp only [stepSpecApi, h2, lineOk, ApiOp.okWord]; decide) h
+  | reopen ro => exact absurd (by simp only [stepSpecApi, lineOk, ApiOp.okWord]; decide) h
+
+/-- **errors change nothing**: a put, delete, metadata set (or any other call) whose result line does
+    not report `ok` — unknown database, empty key, read-only store, key of the wrong size or out of
+    range, key exists, increment not applicable, handler refused, key not found, flags mismatch —
+    leaves the contents of EVERY database (records, metadata, flags) exactly as they were -/
+theorem api_error_preserves_contents (s : Store) (inv : StoreInv s) (op : ApiOp)
+    (h : ¬ lineOk op (stepApi s op).2) : absStore (stepApi s op).1 = absStore s := by
+  have r := api_step_refines s inv op
+  rw [r.2.1]
+  exact spec_error_preserves _ op (by rw [← r.1]; exact h)
+
+/-- on the reference: a call addressing database `i` leaves the entry of any other database alone -/
+theorem spec_db_frame (t : SpecStore) (op : ApiOp) (i j : Nat) (hop : op.db = some i) (hne : i ≠ j) :
+    sgetDb (stepSpecApi t op).1 j = sgetDb t j := by
+  have hji : j ≠ i := Ne.symm hne
+  cases op with
+  | put id key comp val fl lvl ph =>
+    cases hop
+    simp only [stepSpecApi, sput]
+    rcases sputR_cases t i key comp val fl ph with h1 | ⟨d, h1, _⟩
+    · rw [h1.1]
+    · rw [h1, sgetDb_ssetDb_ne t i j d hji]
+  | get id key comp => rfl
+  | getCopy id key comp bufsz => rfl
+  | del id key comp =>
+    cases hop
+    rcases sdel_cases t i key comp with h1 | ⟨d, h1, _⟩
+    · simp only [stepSpecApi]; rw [h1]
+    · simp only [stepSpecApi]; rw [h1, sgetDb_ssetDb_ne t i j d hji]
+  | metaSet id m =>
+    cases hop
+    rcases smetaSet_cases t i m with h1 | ⟨d, h1, _⟩
+    · simp only [stepSpecApi]; rw [h1]
+    · simp only [stepSpecApi]; rw [h1, sgetDb_ssetDb_ne t i j d hji]
+  | metaGet id bufsz known => rfl
+  | openDb id flags =>
+    cases hop
+    rcases sopenDb_cases t i flags with h1 | ⟨h1, _⟩
+    · simp only [stepSpecApi]; rw [h1]
+    · simp only [stepSpecApi]; rw [h1, sgetDb_append_ne t i j _ hji]
+  | destroyDb id =>
+    cases hop
+    rcases sdestroyDb_cases t i with h1 | ⟨h1, _⟩
+    · simp only [stepSpecApi]; rw [h1]
+    · simp only [stepSpecApi]; rw [h1, sgetDb_filter_ne t i j hji]
+  | reopen ro => rfl
+
+/-- **databases are independent**: whatever a call on database `i` does (store, replace, increment,
+    delete, set metadata, create, destroy), database `j ≠ i` keeps its flags, metadata and records -/
+theorem api_db_frame (s : Store) (inv : StoreInv s) (op : ApiOp) (i j : Nat) (hop : op.db = some i) (hne : i ≠ j) :
+    sgetDb (absStore (stepApi s op).1) j = sgetDb (absStore s) j := by
+  rw [(api_step_refines s inv op).2.1]
+  exact spec_db_frame _ op i j hop hne
+
+/-! #### a concrete history: two databases of different modes -/
+
+/-- database 1: byte-string keys; database 2: integer keys with compound part. A put, a no-overwrite
+    put on the same key (refused), an increment of a 4-byte counter by -2, a refusing handler on an
+    existing key, a 4-byte integer key, a put into a database that does not exist, a get from each,
+    metadata, a delete, a read-only re-open and a refused put. -/
+def exApiOps : List ApiOp :=
+  [.openDb 1 0, .openDb 2 (vnumFlags true),
+   .put 1 [7] 0 [5, 0, 0, 0] 0 3 0,
+   .put 1 [7] 0 [9] Gen.IWKV_NO_OVERWRITE 0 0,
+   .put 1 [7] 0 [254, 255, 255, 255] Gen.IWKV_VAL_INCREMENT 1 1,
+   .put 1 [7] 0 [1] 0 0 2,
+   .put 2 [44, 1, 0, 0] 9 [1, 2] 0 2 0,
+   .put 3 [1] 0 [1] 0 0 0,
+   .get 1 [7] 0, .getCopy 2 [44, 1, 0, 0, 0, 0, 0, 0] 9 1,
+   .metaSet 2 [6, 6], .metaGet 2 10 2,
+   .del 1 [8] 0, .del 1 [7] 0,
+   .reopen true, .put 2 [1, 0, 0, 0] 0 [3] 0 0 0]
+
+example : (runSpecApi SpecStore.empty exApiOps).2 =
+    ["db ok", "db ok", "put ok", "put exists", "put ok ph=old:05000000", "put fail ph=old:03000000",
+     "put ok", "put invalid_args", "get ok 03000000", "getc ok 2 01", "mset ok", "mget ok 1 0606",
+     "del notfound", "del ok", "open ok", "put readonly"] := by decide +kernel
+
+/-- … and therefore so does the node-level model, and it ends with the reference's contents -/
+example : (runApi Store.empty exApiOps).2 =
+    ["db ok", "db ok", "put ok", "put exists", "put ok ph=old:05000000", "put fail ph=old:03000000",
+     "put ok", "put invalid_args", "get ok 03000000", "getc ok 2 01", "mset ok", "mget ok 1 0606",
+     "del notfound", "del ok", "open ok", "put readonly"] ∧
+    absStore (runApi Store.empty exApiOps).1 =
+      ⟨[(1, ⟨0, [], []⟩), (2, ⟨vnumFlags true, [6, 6], [((Vnum.enc 300, 9), [1, 2])]⟩)], true⟩ := by
+  rw [(api_history_refines exApiOps).1, (api_history_refines exApiOps).2]
+  decide +kernel
+
+/-- the store after the first three calls of that history satisfies the invariant … -/
+theorem exApi_inv : StoreInv (runApi Store.empty (exApiOps.take 3)).1 :=
+  (api_history_refines_from _ Store.empty storeInv_empty).2.2
+
+/-- … so the refused no-overwrite put (4th call) and the refused handler put provably leave every
+    database as it was (`api_error_preserves_contents`; the hypothesis is the printed line) -/
+example :
+    absStore (stepApi (runApi Store.empty (exApiOps.take 3)).1 (.put 1 [7] 0 [9] Gen.IWKV_NO_OVERWRITE 0 0)).1
+      = absStore (runApi Store.empty (exApiOps.take 3)).1 ∧
+    absStore (stepApi (runApi Store.empty (exApiOps.take 3)).1 (.put 1 [7] 0 [1] 0 0 2)).1
+      = absStore (runApi Store.empty (exApiOps.take 3)).1 := by
+  refine ⟨api_error_preserves_contents _ exApi_inv _ ?_, api_error_preserves_contents _ exApi_inv _ ?_⟩
+  · rw [(api_step_refines _ exApi_inv _).1, (api_history_refines (exApiOps.take 3)).2]
+    simp only [lineOk, ApiOp.okWord]; decide +kernel
+  · rw [(api_step_refines _ exApi_inv _).1, (api_history_refines (exApiOps.take 3)).2]
+    simp only [lineOk, ApiOp.okWord]; decide +kernel
+
+/-- … and the increment on database 1 leaves database 2 alone (`api_db_frame`) -/
+example :
+    sgetDb (absStore (stepApi (runApi Store.empty (exApiOps.take 3)).1
+      (.put 1 [7] 0 [254, 255, 255, 255] Gen.IWKV_VAL_INCREMENT 1 1)).1) 2
+      = sgetDb (absStore (runApi Store.empty (exApiOps.take 3)).1) 2 :=
+  api_db_frame _ exApi_inv _ 1 2 rfl (by decide)
+
+end Api
 
 end IwModel.C01
